@@ -89,7 +89,15 @@ GlobTab == <<
   [decl |-> "unsigned short g17[5] = u\"ab\";",                name |-> "g17", size |-> 10, align |-> 2],
   [decl |-> "unsigned g18[4] = U\"a\";",                       name |-> "g18", size |-> 16, align |-> 4],
   [decl |-> "char g19[8] = \"ab\";",                           name |-> "g19", size |-> 8,  align |-> 1],
-  [decl |-> "struct { char c; double d; float f; } g20 = {1, 2.0, 3.0f};", name |-> "g20", size |-> 24, align |-> 8] >>
+  [decl |-> "struct { char c; double d; float f; } g20 = {1, 2.0, 3.0f};", name |-> "g20", size |-> 24, align |-> 8],
+  (* wide arrays filled exactly by a wide literal (the terminating null does not fit and is dropped, C11 6.7.9p14) *)
+  [decl |-> "unsigned short g21[2] = u\"ab\";",                name |-> "g21", size |-> 4,  align |-> 2],
+  [decl |-> "unsigned g22[1] = U\"a\";",                       name |-> "g22", size |-> 4,  align |-> 4],
+  [decl |-> "struct { unsigned short s[2]; char c; } g23 = {u\"ab\", 1};", name |-> "g23", size |-> 6, align |-> 2],
+  [decl |-> "unsigned short g24[2][2] = {u\"ab\", u\"c\"};", name |-> "g24", size |-> 8,  align |-> 2],
+  [decl |-> "unsigned g25[2][1] = {U\"a\", U\"b\"};",        name |-> "g25", size |-> 8,  align |-> 4],
+  [decl |-> "struct { char c; unsigned w[2]; } g26 = {1, U\"ab\"};", name |-> "g26", size |-> 12, align |-> 4],
+  [decl |-> "unsigned short g27[3] = u\"ab\";",                name |-> "g27", size |-> 6,  align |-> 2] >>
 
 (* ------------------------------------------------------------------------ *)
 Leafy(sym) == sym.d >= MaxD \/ steps >= MaxSteps
